@@ -56,7 +56,8 @@ func c16(args []string) error {
 				run.org.Route(h, uri, origin.Resp{Status: 200, Headers: map[string]string{"Content-Type": "text/plain"}, BodyGen: &origin.BodyGen{Kind: "text", Size: 2300000, Seed: serial}})
 			case 1: // fails for good after retries
 				uri = p + "/down"
-				run.org.Route(h, uri, origin.Resp{Status: 503, Body: "down"})
+				// an error page too large to sit in the transport's read buffer: it has to be drained and closed
+				run.org.Route(h, uri, origin.Resp{Status: 503, Headers: map[string]string{"Content-Type": "text/plain"}, BodyGen: &origin.BodyGen{Kind: "text", Size: 300000, Seed: serial}})
 			case 2: // redirect chain
 				uri = p + "/r0"
 				run.org.Route(h, uri, origin.Resp{Status: 302, Location: p + "/r1"})
@@ -67,7 +68,7 @@ func c16(args []string) error {
 				run.org.Route(h, uri, origin.Resp{Drop: true})
 			case 4: // fails once, then a large html body
 				uri = p + "/flaky.html"
-				run.org.Route(h, uri, origin.Resp{Status: 500, Body: "oops"}, origin.Resp{Status: 200, Headers: htmlCT, BodyGen: &origin.BodyGen{Kind: "html", Size: 2200000, Seed: serial}})
+				run.org.Route(h, uri, origin.Resp{Status: 500, Headers: map[string]string{"Content-Type": "text/plain"}, BodyGen: &origin.BodyGen{Kind: "text", Size: 200000, Seed: serial}}, origin.Resp{Status: 200, Headers: htmlCT, BodyGen: &origin.BodyGen{Kind: "html", Size: 2200000, Seed: serial}})
 			case 5: // large body whose connection is cut after the part that is spooled to disk
 				uri = p + "/cut.txt"
 				run.org.Route(h, uri, origin.Resp{Status: 200, Headers: map[string]string{"Content-Type": "text/plain"}, BodyGen: &origin.BodyGen{Kind: "text", Size: 3000000, Seed: serial}, CutAfter: 2400000})
